@@ -303,6 +303,38 @@ fn dispatch(name: &str, a: &mut Args) -> String {
 			}
 		},
 		"update_channel_probe" => update_channel_probe(a),
+		"secret_store_honest" => {
+			// provide the seed-derived secrets for the top m indices, then read every one back
+			use lightning::ln::chan_utils::{build_commitment_secret, CounterpartyCommitmentSecrets};
+			let m = a.u64();
+			let seed = [7u8; 32];
+			let mut store = CounterpartyCommitmentSecrets::new();
+			let top = (1u64 << 48) - 1;
+			let mut all_ok = true;
+			for j in 0..m {
+				all_ok &= store.provide_secret(top - j, build_commitment_secret(&seed, top - j)).is_ok();
+			}
+			let mut all_back = true;
+			for j in 0..m {
+				all_back &= store.get_secret(top - j) == Some(build_commitment_secret(&seed, top - j));
+			}
+			let below_none = store.get_secret(top - m).is_none();
+			format!("{} {} {} {}", all_ok as u8, all_back as u8, (store.get_min_seen_secret() == top - m + 1) as u8, below_none as u8)
+		},
+		"secret_store_reject" => {
+			// honest secrets for the top m-1 indices, then an unrelated secret at the next index
+			use lightning::ln::chan_utils::{build_commitment_secret, CounterpartyCommitmentSecrets};
+			let m = a.u64();
+			let seed = [7u8; 32];
+			let mut store = CounterpartyCommitmentSecrets::new();
+			let top = (1u64 << 48) - 1;
+			for j in 0..m - 1 {
+				store.provide_secret(top - j, build_commitment_secret(&seed, top - j)).unwrap();
+			}
+			let before_min = store.get_min_seen_secret();
+			let r = store.provide_secret(top - (m - 1), [0x55; 32]);
+			format!("{} {}", r.is_err() as u8, (store.get_min_seen_secret() == before_min) as u8)
+		},
 		"check_mpp_timeout" => {
 			let n = a.usize();
 			let parts: Vec<(u64, u64, u8)> = (0..n).map(|_| (a.u64(), a.u64(), a.u8())).collect();
